@@ -20,7 +20,7 @@ import numpy as np
 from harness import common, engines, sysdrv, tlc
 
 PID = "C16"
-CLAUSES = {"V_PositionsKept", "V_SourceUntouched", "V_NewConfig", "V_ZeroMomentum", "V_KinNew", "V_Dek", "V_Reproducible",
+CLAUSES = {"V_RequestReachesEngine", "V_PositionsKept", "V_SourceUntouched", "V_NewConfig", "V_ZeroMomentum", "V_KinNew", "V_Dek", "V_Reproducible",
            "V_StreamAdvances", "V_Distribution"}
 _BAD = re.compile(r'<<"BADCLAUSE", (\d+), "(\w+)">>')
 _DONE = re.compile(r'<<"TRACE-CONSUMED", (\d+), (\d+)>>')
@@ -72,7 +72,8 @@ def one_call(eng, conf, info, zm, vel_rev, seed, work, tag):
         "source_bytes_same": before == after, "caller_system_same": True,
         "config_is_new_file": os.path.abspath(s.config[0]) != os.path.abspath(src) and os.path.isfile(s.config[0]),
         "config_index_zero": s.config[1] in (0, None),
-        "momentum_zero": bool(np.max(np.abs(mom)) <= 1e-7 * scale),
+        # velocities go through text files with 9 decimals: each component carries up to 5e-10 of rounding
+        "momentum_zero": bool(np.max(np.abs(mom)) <= 1e-7 * scale + 1e-9 * float(np.sum(mass))),
         "kin_new_matches_written": bool(abs(kin_new - kin_w) <= 1e-5 * max(abs(kin_w), 1e-300)),
         "dek_consistent": bool(dek_ok), "same_stream_same_velocities": bool(np.array_equal(v1, v2)),
         "stream_advanced": st0 != st1, "foreign": int(fr.count), "foreign_who": fr.who[:3],
@@ -106,16 +107,51 @@ def caller_untouched(eng, conf, work, tag):
     return same and sp is not p.phasepoints[1]
 
 
+def request_job(args):
+    """shoot / wire_fencing on the lattice plug-in: every velocity regeneration of the move is handed the ensemble's zero_momentum."""
+    kind, zm, seed = args
+    from infretis.core import tis
+    from harness import moves
+    work = common.tmpdir("c16q-")
+    try:
+        eng = moves.engine(work, left_wall=-6)
+        eng.rgen = np.random.default_rng(seed)
+        rg = np.random.default_rng(seed + 1)
+        es = moves.ens_set(0.5, 1.5, 3.5, 40, rg, move=kind, name="002", n_jumps=3)
+        es["tis_set"]["zero_momentum"] = zm
+        path = moves.make_path([0, 1, 2, 1, 0], work, name="old.lat")
+        n_moves = 0
+        for _ in range(6):
+            eng.vel_requests.clear()
+            if kind == "wf":
+                acc, trial, _st = tis.wire_fencing(es, path, eng, start_cond=("L",))
+            else:
+                acc, trial, _st = tis.shoot(es, path, eng, start_cond=("L",))
+            n_moves += 1
+            if not eng.vel_requests or any(r is not zm for r in eng.vel_requests):
+                return [{"kind": kind, "zero_momentum": zm, "request_ok": False, "seen": [str(r) for r in eng.vel_requests], "seed": seed}]
+            if acc:
+                path = moves.archive(trial, work)
+        return [{"kind": kind, "zero_momentum": zm, "request_ok": True, "seen": [], "seed": seed, "moves": n_moves}]
+    except Exception as exc:  # noqa: BLE001
+        import traceback
+        return [{"_error": f"{type(exc).__name__}: {exc}", "engine": f"lattice/{kind}", "call": {}, "tb": traceback.format_exc()[-1000:]}]
+    finally:
+        shutil.rmtree(work, ignore_errors=True)
+
+
 def engine_job(args):
-    name, calls, nstat, seed = args
+    name, hetero, calls, nstat, seed = args
     work = common.tmpdir("c16-")
     events = []
     try:
-        eng, conf, info = engines.build(name)
+        eng, conf, info = engines.build(name, hetero=hetero, work=work)
         mass = engines.masses_of(eng, info)
         for i, c in enumerate(calls):
             try:
                 ev = one_call(eng, conf, info, c["zero_momentum"], c["vel_rev"], seed + i, work, f"{name}_{i}")
+                ev["masses"] = "unequal" if hetero else "equal"
+                ev["request_ok"] = True
             except Exception as exc:  # noqa: BLE001
                 import traceback
                 events.append({"_error": f"{type(exc).__name__}: {exc}", "engine": name, "call": c, "tb": traceback.format_exc()[-1000:]})
@@ -155,7 +191,7 @@ def engine_job(args):
             if abs(var - sig2) > 6 * sig2 * math.sqrt(2.0 / n):
                 ok_var = False
             detail.append({"atom": a, "expected_var": sig2, "var": var, "mean": m, "n": n})
-        events.append({"engine": name, "zero_momentum": False, "vel_rev": False, "positions_kept": True, "box_kept": True, "names_kept": True,
+        events.append({"engine": name, "request_ok": True, "masses": "unequal" if hetero else "equal", "zero_momentum": False, "vel_rev": False, "positions_kept": True, "box_kept": True, "names_kept": True,
                        "source_bytes_same": True, "caller_system_same": True, "config_is_new_file": True, "config_index_zero": True,
                        "momentum_zero": True, "kin_new_matches_written": True, "dek_consistent": True, "same_stream_same_velocities": True,
                        "stream_advanced": True, "foreign": 0, "foreign_who": [], "stat_checked": True, "mean_ok": ok_mean, "var_ok": ok_var,
@@ -184,9 +220,21 @@ def collect(chk, tier, work, pid, clauses):
     calls = {}
     for st in raw.values():
         if st["done"] and not st["call"]["multiframe"]:
-            calls.setdefault(st["call"]["engine"], []).append(st["call"])
-    jobs = [(name, sorted(cl, key=lambda c: (c["zero_momentum"], c["vel_rev"])), 400 if q else 4000, chk.seed * 17 + 3) for name, cl in sorted(calls.items())]
+            calls.setdefault((st["call"]["engine"], st["call"]["masses"] == "unequal"), []).append(st["call"])
+    jobs = [(name, het, sorted(cl, key=lambda c: (c["zero_momentum"], c["vel_rev"])), 400 if q else 4000, chk.seed * 17 + 3 + 7 * het)
+            for (name, het), cl in sorted(calls.items())]
     results = common.pmap(engine_job, jobs)
+    base = {"zero_momentum": False, "vel_rev": False, "positions_kept": True, "box_kept": True, "names_kept": True, "source_bytes_same": True,
+            "caller_system_same": True, "config_is_new_file": True, "config_index_zero": True, "momentum_zero": True, "kin_new_matches_written": True,
+            "dek_consistent": True, "same_stream_same_velocities": True, "stream_advanced": True, "foreign": 0, "foreign_who": [], "stat_checked": False,
+            "mean_ok": True, "var_ok": True}
+    for evs in common.pmap(request_job, [(k, zm, chk.seed + 31 * i) for i, (k, zm) in enumerate((k, zm) for k in ("sh", "wf") for zm in (True, False))]):
+        out = []
+        for ev in evs:
+            if "_error" not in ev:
+                ev = dict(base, engine=f"move:{ev['kind']}", masses="-", zero_momentum=ev["zero_momentum"], request_ok=ev["request_ok"], detail=ev)
+            out.append(ev)
+        results.append(out)
     events = []
     for evs in results:
         for ev in evs:
@@ -198,7 +246,7 @@ def collect(chk, tier, work, pid, clauses):
     path = os.path.join(work, "vel.ndjson")
     with open(path, "w") as fh:
         for ev in events:
-            fh.write(json.dumps({k: v for k, v in ev.items() if k not in ("detail", "foreign_who", "engine")}) + "\n")
+            fh.write(json.dumps({k: v for k, v in ev.items() if k not in ("detail", "foreign_who", "engine", "masses")}) + "\n")
     tcfg = os.path.join(work, "TraceVelocity.cfg")
     with open(tcfg, "w") as fh:
         fh.write("SPECIFICATION TSpec\nINVARIANT Report\nCHECK_DEADLOCK FALSE\n")
@@ -216,13 +264,13 @@ def collect(chk, tier, work, pid, clauses):
         if clause not in clauses:
             continue
         ev = events[idx]
-        chk.violation(f"clause:{clause};engine:{ev['engine']}" + (";zero_momentum" if ev["zero_momentum"] and clause in ("V_KinNew", "V_Dek", "V_ZeroMomentum") else ""),
+        chk.violation(f"clause:{clause};engine:{ev['engine']}" + (";unequal-masses" if ev.get("masses") == "unequal" and clause in ("V_ZeroMomentum", "V_Distribution") else "") + (";zero_momentum" if ev["zero_momentum"] and clause in ("V_KinNew", "V_Dek", "V_ZeroMomentum") else ""),
                       f"modify_velocities of the {ev['engine']} engine violates {clause}: {json.dumps(ev.get('detail'))[:300]} {ev.get('foreign_who')}",
                       {"property": pid, "binding": "C", "spec": "TraceVelocity", "clause": clause, "observed": ev})
     chk.evaluated(len(events))
     chk.traces(len(events))
     for i, ev in enumerate(events):
-        chk.nontrivial((ev["engine"], ev["zero_momentum"], ev["vel_rev"], ev["stat_checked"]))
+        chk.nontrivial((ev["engine"], ev.get("masses"), ev["zero_momentum"], ev["vel_rev"], ev["stat_checked"]))
     if events:
         chk.sample({k: v for k, v in events[0].items()})
     stats = [e for e in events if e["stat_checked"]]
